@@ -82,7 +82,8 @@ def write_evidence(mod, tier, seed, agg, wall, violations_n, known_met):
 
 def _run_chunked(pool, mod, specs, t0, budget):
     """Submit the batch in slices so that a thorough run honours its time budget inside a batch too."""
-    step = max(16, 4 * pool.workers)
+    # with a time budget (thorough tier) the slices are one task per worker, so that the budget is checked often enough
+    step = max(16, 4 * pool.workers) if budget is None else max(1, pool.workers)
     for i in range(0, len(specs), step):
         part = specs[i:i + step]
         for spec, r in zip(part, pool.map_plain(mod.task, part)):
